@@ -55,15 +55,22 @@ func Sigmoid(X tensor.Tensor) (tensor.Tensor, error) {
 
 // ReLU performs the ReLU operation on a tensor.
 func ReLU(X tensor.Tensor) (tensor.Tensor, error) {
-	typedZero, err := GetValueAsTensorType(0.0, X.Dtype())
-	if err != nil {
-		return nil, err
+	switch X.Dtype() {
+	case tensor.Float32:
+		return X.Apply(relu[float32])
+	case tensor.Float64:
+		return X.Apply(relu[float64])
+	default:
+		return nil, ErrCast
+	}
+}
+
+// relu selects instead of multiplying with a mask, such that -Inf maps to 0
+// and NaN is propagated.
+func relu[T FloatType](x T) T {
+	if x < 0 {
+		return 0
 	}
 
-	comparison, err := tensor.Gt(X, typedZero, tensor.AsSameType())
-	if err != nil {
-		return nil, err
-	}
-
-	return tensor.Mul(X, comparison)
+	return x
 }
